@@ -451,3 +451,32 @@ Example C07_check_other_ops_example :
   check_C07 [7; 10; 5; 0; 3; 0; 13837309855095848960; 4613937818241073152; 4563868128777713116; 4607170259999472933; 0; 4607182418800017408; 0; 16; 13833427501210893564; 4587469862064399110; 4587469862113645374; 13833025949717896399; 4588911073875586858; 4588911073929260830; 13831394499428587360; 4593146110034785624; 4593146110068528948; 13829780151477524592; 4595665786301066736; 4595665786318370288; 13829712922043751824; 4595736677112278516; 4595736677129557776; 13829443925028546961; 4596025132009285408; 4596025132026446388; 13827886131238340178; 4597843474311396322; 4597843474327189358; 13823743794587150372; 4600066219852484623; 4600066219857473310; 13823505277735536114; 4600155231622120403; 4600155231626954825; 4577315748347727648; 4602717229891477493; 4602717229891554319; 4598476136072465280; 4603625940124175350; 4603625940126025110; 4598606782528768222; 4603651065237126993; 4603651065239023331; 4599154350144809080; 4603755813478145743; 4603755813480234048; 4604635011385301616; 4605051034232517411; 4605051034236502792; 4606936938122244674; 4605693170849154265; 4605693170853509960; 4609588518694974832; 4606619624971000478; 4606619624974398874]%Z = verdict 0 396288 (-1) [] /\
   check_C07 [7; 3; 0; 0; 0; 1; 5; 0; 7; 7; 1; 9; 9]%Z = verdict 0 1024 (-1) [].
 Proof. vm_compute. repeat split; reflexivity. Qed.
+
+(* ----- (group hK) op 11: InvCDF (UDist{N1, N2, T}) against the EXACT model of C02 -----
+   The support of U is 0, 1/2, ..., N1*N2; the comparison is made in DOUBLED units: support points k = 0 .. 2 N1 N2,
+   F k := udist_cdf N1 N2 T (k/2) — Model/Udist.v, the exact model of C02: by C02_cdf_tied / C02_cdf_untied
+   (Properties/C02.v) it is #{N1-subsets of the pooled sample with 2U <= k} / C(N1+N2, N1) — and every level is read
+   with the observed value doubled (udouble_items, Check/C07.v).  An accepted line parses completely, the parameters
+   are in the property's domain (tie_vector_ok as in C02; N1+N2 <= 10, N1*N2 <= 25: what the comparator tabulates),
+   every doubled level satisfies disc_level_spec, the results are ordered, and with verdict code 0 floor(2 obs) IS
+   the least doubled support point with CDF >= y *)
+Theorem C07_check_op11_sound : forall rest c tag pos diag,
+  check_C07 (7 :: 11 :: rest)%Z = verdict c tag pos diag -> (c = 0 \/ c = 1)%Z ->
+  exists n1 n2 T items,
+    (do n1 <- pnat; do n2 <- pnat; do T <- plist pnat; do items <- plist p_item; pend (n1, n2, T, items)) rest
+      = Some ((n1, n2, T, items), []) /\
+    MM.Proofs.CheckC02.tie_vector_ok n1 n2 (match T with [] => true | _ => false end) T /\ (n1 + n2 <= 10)%nat /\ (n1 * n2 <= 25)%nat /\
+    let F := fun k : Z => MM.Model.Udist.udist_cdf n1 n2 T (inject_Z k / 2) in
+    let hi := (2 * Z.of_nat (n1 * n2))%Z in
+    Forall (disc_level_spec F 0 hi) (udouble_items items) /\
+    levels_ordered (udouble_items items) /\
+    (c = 0%Z -> Forall (disc_level_exact F 0 hi) (udouble_items items)).
+Proof. exact check_C07_op11_sound. Qed.
+Print Assumptions C07_check_op11_sound.
+
+(* UDist{2, 2, nil} at y = 0, 1, 0.4, 0.9, 2 (answers -Inf, 4, 2, 4, NaN: ok); UDist{2, 2, T = [2, 1, 1]} at 0.45, 0.9
+   and the exact level 0.5 = CDF(1.5) (borderline) *)
+Example C07_check_op11_example :
+  check_C07 [7; 11; 2; 2; 0; 5; 0; 0; 18442240474082181120; 4607182418800017408; 0; 4616189618054758400; 4600877379321698714; 0; 4611686018427387904; 4606281698874543309; 0; 4616189618054758400; 4611686018427387904; 0; 9221120237041090561]%Z = verdict 0 8815 (-1) [] /\
+  check_C07 [7; 11; 2; 2; 3; 2; 1; 1; 3; 4601778099247172813; 0; 4609434218613702656; 4606281698874543309; 0; 4616189618054758400; 4602678819172646912; 0; 4609434218613702656]%Z = verdict 1 66153 (-1) [].
+Proof. vm_compute. split; reflexivity. Qed.
